@@ -38,7 +38,8 @@ def run_behaviours(batch):
         s = Solver()
         vs = [s.bool_var() if k == "bool" else s.int_var(beh["lo"], beh["hi"]) for k in kinds]
         if keys:
-            s.add_answer_key([vs[k - 1] for k in keys])
+            from harness.session import KEY_FORMS, _key_args
+            s.add_answer_key(*_key_args(KEY_FORMS[tid % len(KEY_FORMS)], [vs[k - 1] for k in keys]))
         rec = {"t": tid, "kinds": kinds, "models": beh["models"], "keys": keys, "status": "ok",
                "exc": "", "ret": False}
         import warnings
@@ -100,7 +101,7 @@ def loop_part(chk, tier, seed):
     path = chk.dir / "loop_runs.ndjson"
     write_ndjson(path, recs)
     res = run_tlc("Trace_SolveLoop", "Trace_SolveLoop", workdir=chk.dir, env={"TRACE_FILE": str(path)},
-                  timeout=3000)
+                  timeout=3000, workers=1)
     chk.add_tlc(res)
     verdicts = {r["t"]: r for r in res.records}
     if len(verdicts) != len(recs):
@@ -143,6 +144,8 @@ def run(tier, seed):
         v = verdicts[i]
         if v["verdict"].endswith("Z3TimeLimit"):
             chk.extra["inconclusive_z3_time_limit"] = chk.extra.get("inconclusive_z3_time_limit", 0) + 1
+        elif v["verdict"].endswith("ConfiguredTimeLimit"):
+            chk.extra["refused_under_configured_timeout"] = chk.extra.get("refused_under_configured_timeout", 0) + 1
         elif v["verdict"] != "ok":
             chk.violation({"clause": v["verdict"], "route": "z3-session"},
                           f"event {v['k']} of session rejected: {v['verdict']}",
@@ -175,7 +178,7 @@ def replay(path):
     recs = run_behaviours(list(enumerate(behs)))
     p = chk.dir / "replay.ndjson"
     write_ndjson(p, recs)
-    res = run_tlc("Trace_SolveLoop", "Trace_SolveLoop", workdir=chk.dir, env={"TRACE_FILE": str(p)})
+    res = run_tlc("Trace_SolveLoop", "Trace_SolveLoop", workdir=chk.dir, env={"TRACE_FILE": str(p)}, workers=1)
     bad = 0
     for r in sorted(res.records, key=lambda r: r["t"]):
         print(json.dumps({"case": r["t"], "verdict": r["verdict"], "expected_facts": behs[r["t"]]["facts"],
